@@ -786,6 +786,14 @@ def handle (line : String) : String :=
     match ms.toNat?, n.toNat?, np.toNat? with
     | some _, some n, some np => if ["repo", "mw", "dec"].contains via then pVolume n np obs else "bad-op"
     | _, _, _ => "bad-op"
+  | "M" :: "stall" :: via :: wms :: sp :: gp :: evs =>   -- a hist history whose held-up call is stamped at the end of the hook action
+    match wms.toNat?, sp.toNat?, gp.toNat?, evs.mapM parseTEv with
+    | some w, some _, some _, some evs => if ["repo", "mw", "dec"].contains via then mHist (w * 1000000) evs else "bad-op"
+    | _, _, _, _ => "bad-op"
+  | "P" :: "stall" :: via :: wms :: sp :: gp :: rest =>
+    match wms.toNat?, sp.toNat?, gp.toNat?, (rest.takeWhile (· ≠ "##")).mapM parseTEv with
+    | some w, some _, some _, some evs => if ["repo", "mw", "dec"].contains via then pHist (w * 1000000) evs else "bad-op"
+    | _, _, _, _ => "bad-op"
   | ["M", "expire", _, ms] => if ms.toNat?.isSome then "reaccepted" else "bad-op"
   | ["P", "expire", _, _, "##", obs] =>
     if obs = "reaccepted" then "ok"
